@@ -54,3 +54,14 @@ claim("C04",
       "of different namespaces. The metric axioms (zero on re-drawings, symmetry, triangle inequality) follow from the verified identities.",
       TB, "symbolic execution (CrossHair+z3) of the distance functions with symbolic edge lengths against a split/length-map oracle",
       "DESIGN.md 3/C04")
+
+claim("C10",
+      "Inductive step by bounded symbolic execution from an arbitrary valid namespace constructed directly (members in arbitrary list order, "
+      "arbitrary distinct accession indices, counter, partly filled mask cache): one of 20 operations (add/new/require/remove/discard/sort/"
+      "reverse/clear/relabel/delete/copy/deepcopy/copy-constructor/remove+add history) with symbolic targets, labels, case-sensitivity settings; "
+      "afterwards every surviving member has its original single bit, bits are pairwise distinct, new members get fresh bits, copies carry "
+      "the originals' bits, immutable namespaces refuse. Further harnesses: mask<->taxa round trips and all textual renderings for symbolic "
+      "subsets; label lookups against a membership-order model under every namespace/call case setting, also after a relabel.",
+      TB + " Label strings in the lookup harness are symbolic choices from pools (symbolic str.lower() costs >1 s/path in z3).",
+      "symbolic execution (CrossHair+z3) of one namespace operation from an arbitrary valid pre-state; bit-stability invariant and lookup model",
+      "DESIGN.md 3/C10")
